@@ -378,6 +378,13 @@ func c15DeepGen(g *G) {
 			}
 			// unhinted, at the root
 			g.Emit(fmt.Sprintf("c15.rep u:- %s %d - - %s %s -", mode, k, unit, off), tag)
+			// the same bytes (up to 2 KiB: the model pays for the cost of a deep input with time quadratic in its depth) with the model's cost next to the result, the real allocation measured
+			// against it (c15cost.go): every count as large as the guard allows is where a decoder that allocates
+			// what a count announces leaves the model's count behind
+			if bs, _, _, ok := c15DeepInput(strings.Fields(fmt.Sprintf("c15.rep u:- %s %d - - %s %s -", mode, k, unit, off))); ok && len(bs) <= 2048 {
+				g.Emit(fmt.Sprintf("c15.cost u %s - -", hexD(bs)), "cost:"+tag)
+				g.Emit(fmt.Sprintf("c15.cost n %08x %s -", u.c.ID, hexD(bs)), "cost:"+tag+"-named")
+			}
 			// named type
 			g.Emit(fmt.Sprintf("c15.rep n:%08x %s %d - - %s %s -", u.c.ID, mode, k, unit, off), tag+"-named")
 			// hinted: a vector of the interface at the root, and inside rpc_result
